@@ -17,7 +17,7 @@ const ruleC05 = "stateful: one parsed path (C01 generator, weight on filters wit
 	"Non-trivial: >=2 calls whose outcomes differ and >=1 call after a failing call. Distinct = distinct (path, documents, history)."
 
 func drawC05(rt *rapid.T) *Case {
-	g := gen.NewG(rt, gen.PathOpts{Funcs: true, FuncPct: 20, FilterHeavy: gen.Uniform(rt, "heavy", 3) > 0})
+	g := gen.NewG(rt, gen.PathOpts{Funcs: true, FuncPct: 20, FilterHeavy: gen.Uniform(rt, "heavy", 3) > 0, LongPaths: true})
 	p := g.Path()
 	r := gen.Render(p, gen.Canon)
 	c := &Case{Path: r.Text, AST: p, UseNumber: rapid.Bool().Draw(rt, "usenumber"), Funcs: true}
@@ -57,9 +57,12 @@ func drawC05(rt *rapid.T) *Case {
 			c.Ops = append(c.Ops, Op{Kind: "parse", A: gen.Uniform(rt, "other", 2)})
 		case k < 37:
 			c.Ops = append(c.Ops, Op{Kind: "scribble", A: int(rapid.Uint32().Draw(rt, "which") % 1000)})
-		case k < 39:
+		case k < 38:
 			// the caller renames a member of a document in place between two calls
 			c.Ops = append(c.Ops, Op{Kind: "rename", A: gen.Uniform(rt, "doc", nd)})
+		case k < 39:
+			// the caller gives document A the content of document B, keeping A's root container
+			c.Ops = append(c.Ops, Op{Kind: "transplant", A: gen.Uniform(rt, "doc", nd), B: gen.Uniform(rt, "src", nd)})
 		default:
 			c.Ops = append(c.Ops, Op{Kind: "gc"})
 		}
@@ -193,6 +196,16 @@ func checkC05(c *Case, st *Stats) string {
 					hist += fmt.Sprintf("rename(doc %d: %q->%q) ", i, oldKey, newKey)
 				}
 				// results returned earlier for this document may legitimately alias its containers
+				for _, r := range results {
+					r.scribbled = true
+				}
+			}
+		case "transplant":
+			i, j := op.A%len(docs), op.B%len(docs)
+			if i != j && transplantInPlace(docs[i], cur[j].Build(c.UseNumber)) {
+				cur[i] = cur[j]
+				hist += fmt.Sprintf("transplant(doc %d := content of doc %d) ", i, j)
+				st.Class("transplanted-in-place")
 				for _, r := range results {
 					r.scribbled = true
 				}
